@@ -172,3 +172,48 @@ Print Assumptions x86_restores_binding.
 Example x86_nonvacuous :
   x86_look_procs (bs_of_N 0xf0) None 8 (bs_of_N 0x30) = (bs_of_N 0x30, [4; 5; 6; 7]).
 Proof. vm_compute. reflexivity. Qed.
+
+(* ---- the Linux hooks (topology-linux.c) between bind.c and the kernel ----
+   Called with a legal set - all that bind.c ever passes them (bind_only_legal_sets_reach_os) - every
+   set-like Linux hook hands only non-empty masks inside the complete set to sched_setaffinity,
+   set_mempolicy, mbind and (as destination) migrate_pages: for EVERY kernel behaviour, both states of the
+   MPOL_PREFERRED_MANY probe, every task list /proc reports (retries included), all policies and flags.
+   Hypothesis: the complete nodeset is finite (it is for every loaded topology). *)
+Theorem linux_hooks_hand_only_legal_masks_to_kernel :
+  forall KW kernel T (w : lw KW),
+  inf (t_cnodeset T) = false -> kinv KW T w ->
+  (forall tid set, bs_is_empty set = false -> bs_subset set (t_ccpuset T) = true ->
+     kinv KW T (snd (set_tid_cpubind KW kernel tid set w)) /\ kinv KW T (snd (set_pid_cpubind KW kernel tid set w))) /\
+  (forall len ns p f, bs_is_empty ns = false -> bs_subset ns (t_cnodeset T) = true ->
+     kinv KW T (snd (linux_set_thisthread_membind KW kernel T ns p f w)) /\
+     kinv KW T (snd (linux_set_area_membind KW kernel T len ns p f w)) /\
+     kinv KW T (snd (linux_alloc_membind KW kernel T len ns p f w))).
+Proof.
+  intros KW kernel T w Hf Hw. split.
+  - intros tid set He Hs. split; [now apply keeps_set_tid|now apply keeps_set_pid].
+  - intros len ns p f He Hs. repeat split;
+    [now apply keeps_set_thisthread_membind|now apply keeps_set_area_membind|now apply keeps_alloc_membind].
+Qed.
+Print Assumptions linux_hooks_hand_only_legal_masks_to_kernel.
+
+Example linux_masks_nonvacuous :
+  (* BIND|MIGRATE of nodes {0,1} on an 8-node machine, kernel without MPOL_PREFERRED_MANY: migrate_pages, the
+     rejected set_mempolicy(PREFERRED_MANY) and the MPOL_PREFERRED retry all carry mask {0,1}; the migrate_pages
+     SOURCE mask is 0x0f0f...: the known finding, outside what kinv constrains *)
+  let T := TP (bs_of_N 0xff) (bs_of_N 0xff) (bs_of_N 0xff) (bs_of_N 0xff) [] true in
+  let kernel (c : kcall) (k : unit) :=
+    (match c with K_set_mempolicy 5 _ _ => KR (-1) EINVAL bs_empty 0 [] | _ => KR 0 E0 bs_empty 0 [] end, k) in
+  l_ktrace (snd (linux_set_thisthread_membind unit kernel T (bs_of_N 3) HWLOC_MEMBIND_BIND HWLOC_MEMBIND_MIGRATE (LW tt (-1) (-1) [])))
+  = [K_migrate_pages 65 (bs_of_N 0x0f0f0f0f0f0f0f0f) (bs_of_N 3); K_set_mempolicy 5 (Some (bs_of_N 3)) 65; K_set_mempolicy 1 (Some (bs_of_N 3)) 65]
+  /\ l_pm_thread (snd (linux_set_thisthread_membind unit kernel T (bs_of_N 3) HWLOC_MEMBIND_BIND HWLOC_MEMBIND_MIGRATE (LW tt (-1) (-1) []))) = 1%Z.
+Proof. vm_compute. auto. Qed.
+
+(* hwloc_linux_get_area_membind: the reported nodeset contains heap garbage when the kernel needs more than one mask word *)
+Theorem linux_get_area_membind_uninit_refuted :
+  exists garbage, 
+  let T := TP (bs_of_N 3) (bs_of_N 3) (bs_of_N 3) (bs_of_N 3) [] true in
+  let kernel (c : kcall) (k : unit) := (KR 0 E0 (bs_of_N 1) (Z.of_N MPOL_BIND) [], k) in
+  hr_set (fst (linux_get_area_membind unit kernel T 128 garbage 4096 (LW tt (-1) (-1) []))) <> bs_of_N 1
+  /\ hr_set (fst (linux_get_area_membind unit kernel T 64 garbage 4096 (LW tt (-1) (-1) []))) = bs_of_N 1.
+Proof. exists (bs_of_N (2 ^ 100)). vm_compute. split; [discriminate|reflexivity]. Qed.
+Print Assumptions linux_get_area_membind_uninit_refuted.
